@@ -216,8 +216,8 @@ pub fn judge(cfg: &Cfg, res: &RunResult, send_failures: bool) -> (Vec<(String, S
             if end > bound {
                 v.push(("search-ends-too-late".to_string(), format!("closed {} ms after the first query; bound is 1.5 s x ({} named + {} initial) + 3 s", end - fq, named.len(), initial)));
             }
-            if answers.is_empty() && !send_failures && queries.iter().all(|q| q.2 == fq) {
-                // nobody answered at all and no end-game query was possible
+            if answers.is_empty() && !send_failures {
+                // nobody answered at all: one query timeout, then one end-game (whether or not it had anybody left to ask)
                 let dt = end - fq;
                 if !(2_990..=3_050).contains(&dt) {
                     v.push(("silent-network-search-not-3s".to_string(), format!("closed {dt} ms after the first query")));
